@@ -3,6 +3,7 @@ package q
 import (
 	"fmt"
 	"go/types"
+	"sort"
 	"strings"
 
 	ssa "xvc/xssa"
@@ -549,47 +550,77 @@ func (c *Ctx) EveryClass(fn *ssa.Function, atoms, names []string, must, loopCond
 	}
 }
 
-// FullLoop (K2): the loop with condition `loop` is left only through the false edge of its own condition or towards
-// failure exits - no `break`, no early `return ok`: every element the loop ranges over is processed (a path component
-// that is skipped, a signer list that is cut short).
-func (c *Ctx) FullLoop(fn *ssa.Function, loop Cond, why string) {
+// FullLoop (K2): the level-th loop around the anchor instruction (0 = innermost) is left only through its header
+// (the loop condition failing) or towards failure exits - no `break`, no early `return ok`: every element the loop
+// ranges over is processed (a path component that is skipped, a signer list that is cut short). The loop is named by
+// what it contains, not by the spelling of its condition (index loop, range, range over a sub-slice).
+func (c *Ctx) FullLoop(fn *ssa.Function, anchor Target, level int, why string) {
 	if fn == nil {
 		return
 	}
 	fnName := load.QualName(fn)
-	what := "the loop `" + loop.Canon + "` is left only when its condition fails (or towards failure exits)"
-	les := CondEdges(fn, Cond{Canon: loop.Canon, Sense: true})
-	if len(les) == 0 {
-		c.Fail("K2", fnName, what, "-", "loop condition not found")
+	what := fmt.Sprintf("loop %d around %s is left only when its condition fails (or towards failure exits)", level, anchor.Name)
+	ains := anchor.instrs(fn)
+	if len(ains) == 0 {
+		c.Fail("anchor", fnName, what, "-", "anchor instruction not found")
 		return
 	}
 	vs := sigOf(fn.Signature)
-	for _, le := range les {
+	toB := map[*ssa.BasicBlock]map[*ssa.BasicBlock]bool{}
+	reaches := func(from, to *ssa.BasicBlock) bool {
+		m, ok := toB[to]
+		if !ok {
+			m = reachTo(to)
+			toB[to] = m
+		}
+		return from == to || m[from]
+	}
+	for _, ai := range ains {
 		c.Sites++
-		header := le.From
-		// blocks of the loop: reachable from the body entry without re-entering the header, and able to reach it
-		intoHeader := EdgeSet{}
-		for _, b := range fn.Blocks {
-			for i, s := range b.Succs {
-				if s == header {
-					intoHeader[Edge{b, i}] = true
-				}
+		ab := ai.Block()
+		// loop headers around the anchor: h dominates ab and some back edge t->h has ab reaching t
+		hs := map[*ssa.BasicBlock]bool{}
+		for e := range BackEdges(fn) {
+			h := e.To()
+			if h.Dominates(ab) && reaches(ab, e.From) {
+				hs[h] = true
 			}
 		}
-		fromBody := ReachFrom([]*ssa.BasicBlock{le.To()}, intoHeader)
-		toHeader := reachTo(header)
-		inLoop := func(b *ssa.BasicBlock) bool { return b == header || (fromBody[b] && toHeader[b]) }
+		var headers []*ssa.BasicBlock
+		for h := range hs {
+			headers = append(headers, h)
+		}
+		// innermost first: a header dominated by another is deeper
+		sort.Slice(headers, func(i, j int) bool { return headers[j].Dominates(headers[i]) && headers[i] != headers[j] })
+		if level >= len(headers) {
+			c.Fail("K2", fnName, what, c.At(ai), fmt.Sprintf("the anchor sits in %d loop(s) only", len(headers)))
+			continue
+		}
+		header := headers[level]
+		inLoop := func(b *ssa.BasicBlock) bool {
+			if b == header {
+				return true
+			}
+			if !header.Dominates(b) {
+				return false
+			}
+			for e := range BackEdges(fn) {
+				if e.To() == header && reaches(b, e.From) {
+					return true
+				}
+			}
+			return false
+		}
 		var bad []string
-		for b := range fromBody {
-			if !inLoop(b) {
+		for _, b := range fn.Blocks {
+			if !inLoop(b) || b == header {
 				continue
 			}
-			for _, s := range b.Succs {
-				if inLoop(s) {
+			for _, sb := range b.Succs {
+				if inLoop(sb) {
 					continue
 				}
-				// an exit from the body: tolerated only if it leads to failure returns alone
-				reach := ReachFrom([]*ssa.BasicBlock{s}, nil)
+				reach := ReachFrom([]*ssa.BasicBlock{sb}, nil)
 				for _, ret := range Returns(fn) {
 					if reach[ret.Block()] && exitMayBeGood(ret, vs, nil, reach) {
 						bad = append(bad, c.At(b.Instrs[len(b.Instrs)-1]))
